@@ -36,4 +36,28 @@ def noLoopElifs : List (Expr × List Stmt) → Bool
   | (_, b) :: rest => noLoopStmts b && noLoopElifs rest
 end
 
+/-- the increment of a loop is a definition or an assignment (what the grammar allows; the Batch converter names the loop's
+    flag by the loop COUNTER when it closes the increment block, so an increment that contained a loop would get the wrong flag) -/
+def simpleIncr : Option Stmt → Bool
+  | none => true
+  | some (.varDef _ _) => true
+  | some (.assign _ _) => true
+  | _ => false
+
+mutual
+def simpleLoopsStmt : Stmt → Bool
+  | .ifS _ body elifs els => simpleLoopsStmts body && simpleLoopsElifs elifs && simpleLoopsStmts els
+  | .forS init _ incr body => simpleLoopsOpt init && simpleIncr incr && simpleLoopsStmts body
+  | _ => true
+def simpleLoopsStmts : List Stmt → Bool
+  | [] => true
+  | s :: rest => simpleLoopsStmt s && simpleLoopsStmts rest
+def simpleLoopsElifs : List (Expr × List Stmt) → Bool
+  | [] => true
+  | (_, b) :: rest => simpleLoopsStmts b && simpleLoopsElifs rest
+def simpleLoopsOpt : Option Stmt → Bool
+  | none => true
+  | some s => simpleLoopsStmt s
+end
+
 end Tsh.C05S
